@@ -46,7 +46,12 @@ func main() {
 		os.Exit(2)
 	}
 	in := bufio.NewReaderSize(os.Stdin, 1<<20)
-	out := bufio.NewWriter(os.Stdout)
+	// the repository prints to stdout in places (e.g. DelAggregator): keep the protocol stream to ourselves
+	realOut := os.Stdout
+	if devnull, e := os.OpenFile(os.DevNull, os.O_WRONLY, 0); e == nil {
+		os.Stdout = devnull
+	}
+	out := bufio.NewWriter(realOut)
 	defer out.Flush()
 	enc := json.NewEncoder(out)
 	timeouts := 0
